@@ -184,7 +184,7 @@ def _r(t, st):
         name = ".".join(t[2] + (t[1],))
         args = t[3]
         if not args:
-            return name + "()"
+            return name + "(" + st.bws() + ")"
         out = name + "(" + st.bws()
         for i, a in enumerate(args):
             if i:
